@@ -369,4 +369,118 @@ def delFactsOf (tbl : List Point) (peerDoneDefer : Bool) : DelFacts :=
       | some p => p.sel && p.alts.contains .tDone
       | none => false }
 
+/-! ### the life of a connection handed to the torrent (NewPeer → TorAddPeer → peer.Run) -/
+
+/-- circumstances of the hand-over (the classes the harness exercises) -/
+inductive Branch where
+  | normal | duplicateId | ownId | simultaneous | tooMany | remoteClosed | localClosed
+  | noExtensions | afterGoaway | dying | dead
+  deriving Repr, DecidableEq
+
+def allBranches : List Branch :=
+  [.normal, .duplicateId, .ownId, .simultaneous, .tooMany, .remoteClosed, .localClosed,
+   .noExtensions, .afterGoaway, .dying, .dead]
+
+def Branch.ofString : String → Option Branch
+  | "normal" => some .normal | "duplicate-id" => some .duplicateId | "own-id" => some .ownId
+  | "simultaneous" => some .simultaneous | "too-many" => some .tooMany
+  | "remote-closed" => some .remoteClosed | "local-closed" => some .localClosed
+  | "no-extensions" => some .noExtensions | "after-goaway" => some .afterGoaway
+  | "dying" => some .dying | "dead" => some .dead
+  | _ => none
+
+/-- what the source does with the connection (read off the regenerated table) -/
+structure ConnFacts where
+  handlerAlwaysRuns : Bool   -- case TorAddPeer: `go peer.Run` unconditionally, no exit before it
+  newPeerClosesElse : Bool   -- every return of NewPeer but the one after the send follows conn.Close()
+  runClosesConn     : Bool   -- peer.Run's first defer closes the connection, whatever the exit
+  deriving Repr, DecidableEq
+
+def connFactsOf (runs : Bool) (exits : Nat) (rets : List (String × Bool)) (runCloses : Bool) :
+    ConnFacts :=
+  { handlerAlwaysRuns := runs && exits == 0,
+    newPeerClosesElse := !rets.isEmpty && rets.all (fun r => r.2 || r.1 == "nil")
+      && (rets.filter (fun r => r.1 == "nil")).length == 1,
+    runClosesConn := runCloses }
+
+inductive ConnSt where
+  | caller    -- still with the caller of NewPeer
+  | queued    -- inside a TorAddPeer event in t.Event
+  | owned     -- a peer.Run goroutine owns it
+  | dropped   -- nobody owns it and Close was not called: leaked
+  | closed
+  deriving Repr, DecidableEq
+
+structure CC where
+  tear : Nat            -- 0 = loop running (as in Cfg)
+  conn : ConnSt
+  res  : Option Res     -- NewPeer's result
+  deriving Repr, DecidableEq
+
+inductive CLabel where
+  | send | refuseDead | take | peerExit | exit | tearNext
+  deriving Repr, DecidableEq
+
+def allCLabels : List CLabel := [.send, .refuseDead, .take, .peerExit, .exit, .tearNext]
+
+/-- A handler that does not run the peer unconditionally may refuse this hand-over; the model
+    is fail-closed: such a refusal is assumed not to close the connection. -/
+def handlerRuns (f : ConnFacts) (_ : Branch) : Bool := f.handlerAlwaysRuns
+
+def cstep (f : ConnFacts) (b : Branch) (c : CC) : CLabel → Option CC
+  | .send =>        -- `case t.Event <- TorAddPeer{p, init}: return nil` (ready even after Done closed)
+    if c.conn = .caller then some { c with conn := .queued, res := some .ok } else none
+  | .refuseDead =>  -- `case <-t.Done: conn.Close(); return ErrTorrentDead`
+    if c.conn = .caller ∧ 1 ≤ c.tear then
+      some { c with conn := if f.newPeerClosesElse then .closed else .dropped, res := some .dead }
+    else none
+  | .take =>        -- the loop dequeues the event and handles it
+    if c.conn = .queued ∧ c.tear = 0 then
+      some { c with conn := if handlerRuns f b then .owned else .dropped }
+    else none
+  | .peerExit =>    -- peer.Run returns (remote closed, error, torrent's Done, …): its first defer
+    if c.conn = .owned then
+      some { c with conn := if f.runClosesConn then .closed else .dropped }
+    else none
+  | .exit => if c.tear = 0 then some { c with tear := 1 } else none
+  | .tearNext => if 1 ≤ c.tear ∧ c.tear < 4 then some { c with tear := c.tear + 1 } else none
+
+def cinit : CC := ⟨0, .caller, none⟩
+
+inductive CReach (f : ConnFacts) (b : Branch) : CC → Prop where
+  | init : CReach f b cinit
+  | step {c c' : CC} (l : CLabel) : CReach f b c → cstep f b c l = some c' → CReach f b c'
+
+def cterminal (f : ConnFacts) (b : Branch) (c : CC) : Bool :=
+  allCLabels.all (fun l => (cstep f b c l).isNone)
+
+/-- the event sits in the queue of a loop that has exited: nobody will ever dequeue it -/
+def stranded (c : CC) : Bool := c.conn == .queued && decide (1 ≤ c.tear)
+
+def crun (f : ConnFacts) (b : Branch) : CC → List CLabel → Option CC
+  | c, [] => some c
+  | c, l :: ls => match cstep f b c l with
+    | some c' => crun f b c' ls
+    | none => none
+
+/-- which steps of the environment the harness's way of stopping the loop permits -/
+def cstopAllow (s : Stop) (c : CC) : CLabel → Bool
+  | .send | .refuseDead | .peerExit | .tearNext => true
+  | .take => s != .inqueueGoaway && s != .fullGoaway
+  | .exit =>
+    match s with
+    | .live | .answering => c.conn == .owned || c.conn == .closed || c.conn == .dropped
+    | .before => false
+    | _ => c.conn != .caller
+
+def cexplore (f : ConnFacts) (b : Branch) (s : Stop) : Nat → CC → List CC → List CC
+  | 0, c, acc => if acc.contains c then acc else c :: acc
+  | n + 1, c, acc =>
+    let succs := allCLabels.filterMap (fun l => if cstopAllow s c l then cstep f b c l else none)
+    if succs.isEmpty then (if acc.contains c then acc else c :: acc)
+    else succs.foldl (fun a c' => cexplore f b s n c' a) acc
+
+def connOutcomes (f : ConnFacts) (b : Branch) (s : Stop) : List CC :=
+  cexplore f b s 12 (if s == .before then { cinit with tear := 4 } else cinit) []
+
 end Storrent.Lifecycle
